@@ -122,4 +122,86 @@ def mWeight (w : Nat) : MPc → Nat
 
 def mu (s : Sys) : Nat := 5 * s.pending.length + sumL wWeight s.workers + mWeight s.workers.length s.main
 
+/-! ### the executor strategy (`http_thread_executor_strategy`): futures in submission order, pool joined on exit -/
+
+inductive XW
+  | idle                 -- waiting for a job (or for shutdown)
+  | run (r : Req)        -- the job's request is in flight
+  | exited
+deriving DecidableEq, Repr
+
+inductive XM
+  | wait (i : Nat)               -- `jobs[i].result()`
+  | exiting (raised : Bool)      -- leaving the `with` block: about to call `shutdown(wait=True)`
+  | joining (raised : Bool)      -- waiting for the pool's threads
+  | finished (o : Outcome)
+deriving DecidableEq, Repr
+
+structure XSys where
+  jobs : List Req                -- submission order (never changes)
+  queue : List Req               -- submitted, not started (FIFO)
+  done : List (Req × Bool)       -- completed futures
+  workers : List XW
+  main : XM
+  copied : List Req              -- blocks copied to the output so far, in order
+  shutdown : Bool
+deriving Repr
+
+def xinit (reqs : List Req) (threads : Nat) : XSys :=
+  ⟨reqs, reqs, [], List.replicate (min reqs.length threads) .idle, .wait 0, [], false⟩
+
+def xWorker (fails : Req → Bool) (s : XSys) (i : Nat) : Option XSys :=
+  match s.workers[i]? with
+  | none => none
+  | some .idle =>
+    match s.queue with
+    | r :: rest => some { s with queue := rest, workers := s.workers.set i (.run r) }
+    | [] => if s.shutdown then some { s with workers := s.workers.set i .exited } else none
+  | some (.run r) => some { s with done := s.done ++ [(r, !fails r)], workers := s.workers.set i .idle }
+  | some .exited => none
+
+def lookupDone (d : List (Req × Bool)) (r : Req) : Option Bool :=
+  match d with
+  | [] => none
+  | (q, ok) :: rest => if q = r then some ok else lookupDone rest r
+
+def xMain (s : XSys) : Option XSys :=
+  match s.main with
+  | .wait i =>
+    match s.jobs[i]? with
+    | none => some { s with main := .exiting false }        -- no job at all
+    | some r =>
+      match lookupDone s.done r with
+      | none => none                                         -- blocked in `result()`
+      | some true => some { s with copied := s.copied ++ [r], main := if i + 1 < s.jobs.length then .wait (i + 1) else .exiting false }
+      | some false => some { s with main := .exiting true }
+  | .exiting b => some { s with shutdown := true, main := .joining b }
+  | .joining b =>
+    if s.workers.all (· == .exited) then some { s with main := .finished (if b then .raised else .data s.copied) } else none
+  | .finished _ => none
+
+def xstep (fails : Req → Bool) (s : XSys) (t : Nat) : Option XSys :=
+  if t = 0 then xMain s else xWorker fails s (t - 1)
+
+def xrun (fails : Req → Bool) (s : XSys) : List Nat → XSys
+  | [] => s
+  | t :: ts => xrun fails ((xstep fails s t).getD s) ts
+
+def xwWeight : XW → Nat
+  | .exited => 0
+  | .idle => 1
+  | .run _ => 2
+
+def xsumL (g : XW → Nat) : List XW → Nat
+  | [] => 0
+  | w :: ws => g w + xsumL g ws
+
+def xmWeight (n : Nat) : XM → Nat
+  | .finished _ => 0
+  | .joining _ => 1
+  | .exiting _ => 2
+  | .wait i => 3 + (n - i)
+
+def xmu (s : XSys) : Nat := 3 * s.queue.length + xsumL xwWeight s.workers + xmWeight s.jobs.length s.main
+
 end LasModel.Http
